@@ -137,6 +137,11 @@ fn main() {
         }
         "run" => {
             let p = find(&args[2]);
+            // a scratch directory of this run only (concurrent runs must not see each other's files)
+            if std::env::var("DSMC_SCRATCH").is_err() {
+                let base = if std::path::Path::new("/dev/shm").is_dir() { "/dev/shm".to_string() } else { "/verif/harness/target".to_string() };
+                std::env::set_var("DSMC_SCRATCH", format!("{}/dsmc-scratch-{}", base, std::process::id()));
+            }
             let workers: usize = arg_after(&args, "--workers")
                 .and_then(|s| s.parse().ok())
                 .unwrap_or_else(|| std::thread::available_parallelism().map(|n| n.get()).unwrap_or(4).min(16));
